@@ -259,7 +259,7 @@ def judgeAll (g : Graph) (seqTasks : List String) (ops : List Json) (trigs : Lis
       | some y =>
         if y.st == "waiting" && !liveStart && !exemptNone then
           let otherFlow : Bool := match b, f with
-            | some x, some ff => !(inter ff x.fl) && !(ff.isEmpty && x.fl.isEmpty)
+            | some x, some ff => (x.fl.any fun n => !ff.contains n) || (x.fl.isEmpty && !ff.isEmpty)
             | _, _ => false
           let memberInFlow : Bool := match f with
             | none => true
@@ -311,10 +311,11 @@ def judgeAll (g : Graph) (seqTasks : List String) (ops : List Json) (trigs : Lis
                   let liveParent := bad.any fun a => match before.get? (a.1.pt, a.1.task) with
                     | some x => (x.st == "submitted" || x.st == "running") && !x.out.isEmpty
                     | none => false
-                  -- the member was pooled in other flows only: the command neither removed nor respawned it, so it
+                  -- the member was pooled in flows other than the triggered ones (only, or as well): its proxy stayed
+                  -- in the pool for those flows, the command neither removed nor respawned it, so it
                   -- kept the prerequisite states of its earlier run and was later absorbed by the triggered flow
                   let otherFlow : Bool := match b, f with
-                    | some x, some ff => !(inter ff x.fl) && !(ff.isEmpty && x.fl.isEmpty)
+                    | some x, some ff => (x.fl.any fun n => !ff.contains n) || (x.fl.isEmpty && !ff.isEmpty)
                     | _, _ => false
                   -- (shape (i) of `sequential-task`: an unsatisfied in-group atom is the implicit prerequisite)
                   let key := if implicit then some "sequential-task"
